@@ -64,6 +64,15 @@ class P(Prop):
             k = rng.randint(2, 12)
             style, ks = knots(rng, k)
             out.append(dict(op="linear", knots=ks, meta={"class": "linear/" + style}))
+        for k in (13, 16, 17, 18, 31, 32, 33, 64, 65, 66, 100, 129):      # sizes around every plausible buffer / block cut-over
+            style, ks = knots(rng, k)
+            out.append(dict(op="linear", knots=ks, meta={"class": "linear/count"}))
+        for _ in range(6 if tier == "quick" else 60):
+            x0 = rng.choice([0.0, 1.0, -3.0])
+            gap = rng.choice([1e10, 2.0 ** 40, 1e15])
+            dy = rng.choice([1e-300, 2.0 ** -1000, 3e-305])
+            ks = [[C.bits(x0), C.bits(0.0)], [C.bits(x0 + gap), C.bits(dy)], [C.bits(x0 + 3 * gap), C.bits(-dy)]]
+            out.append(dict(op="linear", knots=ks, meta={"class": "linear/subnormal_slope"}))
         for nk in (0, 1):
             style, ks = knots(rng, max(nk, 1))
             out.append(dict(op="linear", knots=ks[:nk], meta={"class": "linear/rejected"}))
@@ -126,7 +135,9 @@ class P(Prop):
             width = C.fl(C.bits(float(rx) - float(left_x)))
             if width >= EPS:
                 amp = (abs(left_x) + abs(rx)) / Fraction(width) + 1
-                tol2 = 16 * U * amp * (abs(left_y) + abs(y1)) + tol
+                # + gradual underflow: each operation may be off by half a unit of the smallest subnormal (2^-1075) in absolute
+                # terms - e.g. a subnormal slope - and that error is amplified by the abscissae it is multiplied with
+                tol2 = 16 * U * amp * (abs(left_y) + abs(y1)) + tol + Fraction(8, 2 ** 1075) * (abs(left_x) + abs(rx) + 1)
                 if abs(c0 + c1 * rx - y1) > tol2:
                     return "segment %d is %r wide (>= eps) but does not pass through its right knot (%r, %r): value %r" % (
                         i, width, float(rx), float(y1), float(c0 + c1 * rx))
